@@ -818,7 +818,7 @@ fn main() {
         std::process::exit(1);
     }
 
-    let n = simcore::env_usize("VERIF_C20_RUNS", if tier == "thorough" { 40_000 } else { 4_000 });
+    let n = simcore::env_usize("VERIF_C20_RUNS", if tier == "thorough" { 80_000 } else { 4_000 });
     let det_n = if cmd == "selftest" { n.max(100) } else if tier == "thorough" { 1_500 } else { 200 };
     let agg = Mutex::new(Agg::default());
     let stop = AtomicBool::new(false);
